@@ -304,19 +304,26 @@ def r3(R):
         R.check(not bad, "C19.R3", m.rel, w.lineno, "iradon.%s" % w.name, "closure effects: %s" % (bad or "locals only"),
                 "a worker writes state shared with other workers: %s" % bad)
     text = ast.unparse(fn)
-    # stride partition and ordered accumulation
-    part = [n for n in ast.walk(fn) if isinstance(n, (ast.ListComp, ast.GeneratorExp)) and "::" in ast.unparse(n)]
-    okp = False
-    for p in part:
-        u = ast.unparse(p)
-        g = p.generators[0]
-        if isinstance(p.elt, ast.Subscript) and isinstance(p.elt.slice, ast.Slice) and p.elt.slice.upper is None \
-                and p.elt.slice.lower is not None and p.elt.slice.step is not None \
-                and isinstance(g.iter, ast.Call) and pyfacts.dotted(g.iter.func) == "range" \
-                and src(g.iter.args[-1]) == src(p.elt.slice.step) and src(p.elt.slice.lower) == src(g.target):
-            okp = True
-    R.check(okp, "C19.R3", m.rel, fn.lineno, "iradon", "job list [todo[j::workers] for j in range(workers)]",
-            "projections are not split by the disjoint, exhaustive stride partition")
+    # the job list must be a disjoint, exhaustive partition of the projections
+    jobs_asg = [n for n in ast.walk(fn) if isinstance(n, ast.Assign) and isinstance(n.targets[0], ast.Name)
+                and any(isinstance(c, ast.Call) and isinstance(c.func, ast.Attribute) and c.func.attr == "map" and len(c.args) >= 2
+                        and src(c.args[1]) == n.targets[0].id for c in ast.walk(fn))]
+    if len(jobs_asg) != 1:
+        R.fail("C19.R3: cannot find the job list handed to pool.map in iradon (%d candidates)" % len(jobs_asg))
+    jv = jobs_asg[0].value
+    verdict, why = partition_verdict(fn, jv)
+    if verdict is None:
+        R.fail("C19.R3: job list '%s' is not one of the partition idioms the rule understands: %s" % (src(jv)[:80], why))
+    R.check(verdict, "C19.R3", m.rel, jobs_asg[0].lineno, "iradon", "job list %s" % src(jv)[:90],
+            "the projections are not split into a disjoint, exhaustive partition: " + why)
+    # serial branch and threaded branch iterate over the same index set
+    serial = [c for c in ast.walk(fn) if isinstance(c, ast.Call) and pyfacts.dotted(c.func) == "run_interp" and c.args]
+    todo = [n for n in ast.walk(fn) if isinstance(n, ast.Assign) and isinstance(n.targets[0], ast.Name) and n.targets[0].id == "todo"]
+    if serial and todo:
+        a = src(serial[0].args[0]).replace("list(", "").rstrip(")")
+        b = src(todo[0].value).replace("list(", "").rstrip(")")
+        R.check(a.strip("()") == b.strip("()"), "C19.R3", m.rel, serial[0].lineno, "iradon", "serial %s vs threaded %s" % (src(serial[0].args[0]), src(todo[0].value)),
+                "the one-worker path and the threaded path do not cover the same projections")
     maps = [n for n in ast.walk(fn) if isinstance(n, ast.Call) and isinstance(n.func, ast.Attribute) and n.func.attr in ("map", "imap", "imap_unordered", "submit")]
     R.check(any(c.func.attr == "map" for c in maps) and not any(c.func.attr in ("imap_unordered",) for c in maps), "C19.R3", m.rel,
             fn.lineno, "iradon", "pool methods used: %s" % sorted(set(c.func.attr for c in maps)),
@@ -330,6 +337,38 @@ def r3(R):
                     acc = True
     R.check(acc, "C19.R3", m.rel, fn.lineno, "iradon", "for part in pool.map(...): recon += part",
             "accumulation of the workers' partial images is not a '+=' in the submitting thread")
+
+
+def partition_verdict(fn, jv):
+    """-> (True/False/None, reason) for the expression that builds the job list"""
+    if isinstance(jv, ast.Call) and (pyfacts.dotted(jv.func) or "").split(".")[-1] == "array_split":
+        return True, "np.array_split"
+    if isinstance(jv, (ast.ListComp, ast.GeneratorExp)) and len(jv.generators) == 1:
+        g = jv.generators[0]
+        if g.ifs or not (isinstance(g.iter, ast.Call) and pyfacts.dotted(g.iter.func) == "range" and len(g.iter.args) == 1
+                         and isinstance(g.target, ast.Name)):
+            return None, "comprehension is not 'for j in range(W)'"
+        W = src(g.iter.args[0])
+        j = g.target.id
+        e = jv.elt
+        if isinstance(e, ast.Subscript) and isinstance(e.slice, ast.Slice):
+            sl = e.slice
+            if sl.upper is None and sl.lower is not None and sl.step is not None and src(sl.lower) == j and src(sl.step) == W:
+                return True, "stride partition X[j::W], j in range(W)"
+            return False, "slice %s is not the stride partition [j::%s]" % (src(e.slice), W)
+        if isinstance(e, ast.Call) and pyfacts.dotted(e.func) == "range" and len(e.args) == 2:
+            lo, hi = e.args
+            # range(j*c, (j+1)*c): exhaustive only if W*c == N, which a floor division does not give
+            cname = None
+            for side in (lo, hi):
+                for n in ast.walk(side):
+                    if isinstance(n, ast.Name) and n.id not in (j,):
+                        cname = n.id
+            cdef = [a for a in ast.walk(fn) if isinstance(a, ast.Assign) and isinstance(a.targets[0], ast.Name) and a.targets[0].id == cname]
+            if cdef and isinstance(cdef[0].value, ast.BinOp) and isinstance(cdef[0].value.op, ast.FloorDiv):
+                return False, "contiguous chunks of size %s = %s drop the remainder of the division" % (cname, src(cdef[0].value))
+            return None, "contiguous chunks with an unrecognised chunk size"
+    return None, "unrecognised construction"
 
 
 # --------------------------------------------------------------------------------------------------
